@@ -7,6 +7,12 @@ from streams import (hx, rand_expr, rand_test, rand_action, rand_format, sx_str,
 DEV = hx('/dev/x')
 
 
+
+# how a stdout format may end: the newline escape last, or anything else last (a newline earlier does not terminate the record)
+ENDINGS = ['(Spc Newline)', '(Spc Newline) (Lit %s)' % sx_str(' '), '(Spc Newline) (Lit %s)' % sx_str('--'), '(Spc Newline) (Fld Name)', '(Spc Newline) (Spc TabHorizontal)',
+           '(Spc Newline) (Spc Newline)', '(Lit %s)' % sx_str('x\n'), '(Lit %s)' % sx_str('\n'), '(Lit %s) (Spc Newline)' % sx_str('\n'), '(Spc Newline) (Lit %s)' % sx_str('\n'),
+           '(Spc CarriageReturn)', '(Spc Newline) (Spc Null)', '(Spc Null) (Spc Newline)', '(Spc Backslash)', '(Spc (Ascii 10)) (Spc Newline)']
+
 def T(tree, path=DEV, depth=0, threads='-', annot=''):
     return 'T %d %s %s %s%s' % (depth, threads, path, tree, (' ' + annot) if annot else '')
 
@@ -216,6 +222,9 @@ def gen_resources(tier, rnd):
     # plain mode: a formatted print ending in each octal escape value next to -print
     for v in list(range(0, 16)) + [10, 266, 522, 255, 256, 511]:
         lines.append(T('(Or (A Print) (A (PrintFormatted (# (Fld Name) (Spc (Ascii %d))))))' % v))
+    for e in ENDINGS:
+        lines.append(T('(Or (A Print) (A (PrintFormatted (# (Fld Name) %s))))' % e))
+        lines.append(T('(A (PrintFormatted (# (Lit %s) (Fld Name) %s)))' % (sx_str('p '), e)))
     lines = vary_options(lines, rnd)
     return lines, {'rule': '%d expressions with 0..13 (every 50th: 100..300) matchers and printers in random first-occurrence order, with repeats, case-only differences, pattern/literal pairs, file and stdout destinations, in plain and framed mode; non-trivial = at least two resources' % n,
                    'streams': {'resources': len(lines)}}
@@ -292,6 +301,9 @@ def gen_actions(tier, rnd):
     # every octal escape value as the last element of a stdout format (is it the newline escape or not?)
     for v in range(0, 512):
         lines.append(T('(A (PrintFormatted (# (Fld Name) (Spc (Ascii %d)))))' % v))
+    for e in ENDINGS:
+        lines.append(T('(A (PrintFormatted (# (Fld Name) %s)))' % e))
+        lines.append(T('(And (A Print) (A (PrintFormatted (# (Fld Name) %s))))' % e))
     return lines, {'rule': 'all multisets of up to %d actions drawn from every output-producing action (stdout/3 file names x newline/NUL/formatted, print-file-fid, formats ending/not ending in a newline escape, empty format) and -quit, shuffled together with 0..3 tests (constants, name/path matchers that consume generated-name indices, a size test) into random operator trees (exhaustive over multisets)%s; one family with 1..300 distinct destinations; non-trivial = every request' % (maxk, '' if tier == 'quick' else ' plus 100000 random multisets of 5..6'),
                    'streams': {'actions': len(lines)}}
 
@@ -312,6 +324,9 @@ def gen_histories_c15(tier, rnd):
     for k in range(0, 41):
         texts.append(' '.join('-name n%d' % j for j in range(k)) + ' -fprint a -fprint b')
         texts.append('( ' + ' -o '.join('-name n%d' % j for j in range(max(k, 1))) + ' ) -fprint0 a -fprint b -fprint0 b')
+    # run options, leading and misplaced, alone and combined: what one call registered must not change another
+    texts += ['-name core -threads 4', '-type f -depth', '-name a -depth -threads 4', '-threads 2 -name b', '-depth -name c -threads 8',
+              '( -name d -o -threads 3 ) -print', '-name e -threads 4 -fprint out', '! -depth -name f', '-threads 1 -depth -print0']
     seq = []
     for i, t in enumerate(texts):
         seq += [(i, t)] * 3
@@ -326,7 +341,7 @@ def gen_histories_c15(tier, rnd):
         lines.append('Z 1100')
         lines.append('C %s %s' % (hx(rnd.choice(['-mmin -5', '-mtime +1 -print', '-amin 3 -o -cmin 7'])), DEV))
         lines.append('C %s %s' % (hx('-ctime 2 -print0'), DEV))
-    return lines, {'rule': '%d random expressions (biased to many matchers, printers and time tests), each parsed+compiled+rendered three times in one process, interleaved in random order with the others; a few histories in which a compile that is rejected AFTER reaching a time test is followed by a one-second pause and further compiles; the same stream is then run in two more fresh processes and compared observation by observation (clock readings normalised); non-trivial = every request' % n,
+    return lines, {'rule': '%d random expressions (biased to many matchers, printers and time tests), each parsed+compiled+rendered three times in one process, interleaved in random order with the others; a few histories in which a compile that is rejected AFTER reaching a time test is followed by a one-second pause and further compiles; expressions with leading and misplaced run options among them; the same stream is then run in fresh processes — once in the same order, once in reverse order, and a sample of the requests each alone in a process of its own — and compared observation by observation (clock readings normalised); non-trivial = every request' % n,
                    'streams': {'histories': len(lines)}}
 
 
